@@ -4,6 +4,7 @@
 
 #include <etl/_config/all.hpp>
 
+#include <etl/_cmath/rint.hpp>
 #include <etl/_concepts/integral.hpp>
 #include <etl/_type_traits/is_constant_evaluated.hpp>
 #include <etl/_type_traits/is_same.hpp>
@@ -11,10 +12,12 @@
 namespace etl {
 
 namespace detail {
+/// Rounds to the nearest integer (halfway cases to even) before converting; a plain
+/// conversion would truncate.
 template <typename T, typename U>
 [[nodiscard]] constexpr auto lrint_fallback(U arg) noexcept -> T
 {
-    return static_cast<T>(arg);
+    return static_cast<T>(etl::detail::rint_fallback(arg));
 }
 
 template <typename T>
